@@ -293,7 +293,7 @@ func TestVerifC04Verdicts(t *testing.T) {
 				delays    [4]byte
 				local     bool
 				topic     string
-				pair      bool // sent together with a message of the other topic (penalties judged on the pair)
+				pair      bool  // sent together with a message of the other topic (penalties judged on the pair)
 				fwd       []int // forwarder indices that sent a copy
 				perr      error
 				invBefore map[peer.ID]float64
